@@ -226,6 +226,16 @@ pub fn c14(rng: &mut Rng, _tier: &str, _idx: usize) -> Case {
     let mut nontrivial = false;
     for call in 0..ncalls {
         let dst = 1 + call as u32;
+        if call >= 1 && rng.chance(1, 3) {
+            // the modifier roots change between two calls on the same ontology object
+            let v = match rng.below(4) {
+                0 => "def".to_string(),
+                1 => "-".to_string(),
+                _ => crate::proto::ids(ids.iter().copied().filter(|x| *x != 1 && *x != 118 && rng.chance(1, 4))),
+            };
+            c.op(format!("setmod 0 {v}"));
+            c.stat("modifier_changed_between_calls", 1);
+        }
         let root = match rng.below(6) {
             0 => 1,
             1 | 2 => 118,
